@@ -41,26 +41,36 @@ def ncases(tier):
 
 def mixed_env_probe(ctx):
     K = kern.RealK.load()
-    for mode in ("and", "or", "all_of", "any_of"):
-        ctx.count("mixed_env_probes")
-        e1, e2 = K.Environment(), K.Environment()
-        a, b = e1.timeout(1), e2.timeout(1)
-        try:
-            if mode == "and":
-                a & b
-            elif mode == "or":
-                a | b
-            elif mode == "all_of":
-                e1.all_of([a, b])
-            else:
-                e1.any_of([b, a])
-            ctx.violation("mixed-environments-accepted", "a condition over events of two environments was not refused",
-                          mode, {"probe": "mixed_env"})
-        except ValueError:
-            pass
-        except Exception as e:
-            ctx.violation("mixed-environments-wrong-exception", "mixing environments raised something other than ValueError",
-                          [mode, repr(e)], {"probe": "mixed_env"})
+    for processed in (False, True):
+        for mode in ("and", "or", "all_of", "any_of", "and-rev", "any_of-first", "nested"):
+            ctx.count("mixed_env_probes")
+            e1, e2 = K.Environment(), K.Environment()
+            a, b = e1.timeout(1), e2.timeout(1)
+            if processed:
+                e2.run()                 # the foreign operand has already been processed in its own environment
+            try:
+                if mode == "and":
+                    a & b
+                elif mode == "or":
+                    a | b
+                elif mode == "and-rev":
+                    b & a
+                elif mode == "all_of":
+                    e1.all_of([a, b])
+                elif mode == "any_of-first":
+                    e1.any_of([b, a])
+                elif mode == "nested":
+                    e1.all_of([a, e1.any_of([e1.timeout(2), b])])
+                else:
+                    e1.any_of([a, b])
+                ctx.violation("mixed-environments-accepted" + ("[processed-operand]" if processed else ""),
+                              "a condition over events of two environments was not refused",
+                              mode, {"probe": "mixed_env"})
+            except ValueError:
+                pass
+            except Exception as e:
+                ctx.violation("mixed-environments-wrong-exception", "mixing environments raised something other than ValueError",
+                              [mode, repr(e)], {"probe": "mixed_env"})
 
 
 def one_case(ctx, prog):
@@ -92,6 +102,10 @@ def run_shard(ctx):
     for i in ctx.cases(ncases(ctx.tier)):
         case = {"program": kern.gen_program(ctx.rng(i), PROFILE)}
         viol, nt = one_case(ctx, case["program"])
+        if i % 4 == 0:
+            bv, n = kern.bare_spec_violation(case["program"])
+            viol += bv
+            ctx.count("bare_runs_compared")
         for m, what, wit in viol:
             ctx.violation(m, what, wit, case)
         ctx.case_done(case, nt)
@@ -101,5 +115,6 @@ def replay(ctx, case):
     if "probe" in case:
         return mixed_env_probe(ctx)
     viol, _ = one_case(ctx, case["program"])
+    viol += kern.bare_spec_violation(case["program"])[0]
     for m, what, wit in viol:
         ctx.violation(m, what, wit, case)
